@@ -93,7 +93,7 @@ def classify(e, names):
     src = "suite" if z.startswith("suite/") else "shipped" if not z.startswith("gen/") else "generated"
     if z in ANCIENT:
         src = "ancient-dst-zone"
-    k = e["e"]
+    k = e["e"] + (":subsecond" if e.get("sub") == 1 else "")
     if e.get("ub") == 1:
         if src == "ancient-dst-zone" and "cs" in e and from_limbs(e["cs"][0]) > (1 << 62):
             # the listed finding: `cs.year() - last_year_` in MakeTime with a negative last_year_
